@@ -15,7 +15,7 @@ from vlib.sim import Sim
 PROPERTY = 'C03'
 RULE = ('configured x proposed hold in {0,3,4,9,30,90,180,65535}; phases: established schedule / silent after TCP accept '
         '(OpenSent wait) / silent after OPEN (OpenConfirm wait); schedule = list of (gap class, KEEPALIVE|UPDATE, '
-        'message-first|timer-first) with gap in {H-eps,H,H+eps,H/3-eps,H/3,H/3+eps,0,small}, eps in {0.001,1}. '
+        'message-first|timer-first) with gap in {H-eps,H,H+eps,H/3-eps,H/3,H/3+eps,0,small}, eps in {0.001,1}; session on the first connection attempt, after a refused one, or on the retry made while the first is still unanswered. '
         'Non-trivial = a gap >= H/3 and either an exact tie or a gap within eps of H; distinct by (config, schedule).')
 ASSUMPTIONS = [
     'tolerance 1e-6 s on H/3 (floating point division); the simulator fires a timer exactly at its due time',
@@ -81,7 +81,10 @@ def run_case(case):
     conf, prop, phase, eps = case['conf'], case['prop'], case['phase'], case['eps']
     H = min(conf, prop)
     out = []
-    sim = Sim(hold_time=conf, keep_alive_time=case.get('conf_ka', 60), idle_hold_time=5)
+    # ('slow': the ConnectRetry time is shorter than the 30 s the TCP attempt itself takes to give up, so the retry is made
+    # while the first attempt is still unanswered)
+    sim = Sim(hold_time=conf, keep_alive_time=case.get('conf_ka', 60), idle_hold_time=5,
+              connect_retry_time={'slow': 10, 'slow-tie': 30}.get(case.get('connect'), 60))
     r = sim.reactor
     prev = case.get('prev')
     if prev and phase != 'opensent':
@@ -112,6 +115,22 @@ def run_case(case):
             guard += 1
         if not r.attempts():
             return [('prev-session:no-new-attempt:%s' % prev['end'], 'no connection attempt after the earlier session')]
+    how_c = case.get('connect')
+    if how_c and phase != 'opensent' and not prev:
+        # how the TCP connection of the session came about: the first attempt is refused / gets no answer until the agent
+        # tries again; the attempt that is then accepted carries the session, whose timers are those of the negotiation only
+        sim.boot()
+        first = r.attempts()[-1] if r.attempts() else None
+        if first is not None and how_c == 'refused':
+            r.refuse(first)
+            r.settle(fire_due=True)
+        guard = 0
+        while guard < 50 and r.next_time() is not None and not [a for a in r.attempts() if a is not first]:
+            r.advance_to(r.next_time())
+            r.settle(fire_due=True)
+            guard += 1
+        if not [a for a in r.attempts() if a is not first]:
+            return [('connect-history:no-second-attempt:%s' % how_c, 'no further connection attempt after the first one (%s)' % how_c)]
     c = ss.connect(sim)
     r.settle(fire_due=True)
     if phase == 'opensent':
@@ -278,6 +297,7 @@ case_strategy = st.fixed_dictionaries({
     'phase': st.sampled_from(['est', 'est', 'est', 'est', 'opensent', 'openconfirm']),
     'eps': st.sampled_from([0.001, 1.0]),
     'second_open': st.sampled_from([None, None, None, 0, 3, 9, 65535]),
+    'connect': st.sampled_from([None, None, None, 'refused', 'slow', 'slow-tie']),
     'prev': st.one_of(st.none(), st.none(), st.fixed_dictionaries({
         'prop': st.sampled_from(HOLDS), 'end': st.sampled_from(['stop-start', 'notif-ver', 'marker', 'close'])})),
     'schedule': st.one_of(st.lists(arrival, max_size=8), st.lists(arrival, min_size=15, max_size=30))})
